@@ -113,7 +113,8 @@ claim("C07", "must-pass-through on MIR (validation dominates constant constructi
       "exceptions: wide_mul, bounded_int_add/sub); every quotient / remainder computed on constants in either evaluator is of the truncating "
       "family (the one DivRem::div_rem and its run-time projections `/` and `%` use), and a compile-time remainder comes from a div_rem whose "
       "quotient is validated; the value handed to the range tests is computed with exact BigInt arithmetic; wherever the members of a struct "
-      "constructor expression are turned into an ordered sequence, the sequence is driven by the declared member order, as at run time." + DECIDES + " Agreement of the remaining BigInt arithmetic with the libfuncs on values (conversions, shifts, "
+      "constructor expression are turned into an ordered sequence, the sequence is driven by the declared member order, as at run time; the gate that "
+      "admits a call into a constant says yes only for the panic function, a const signature, or a core-crate impl of a registered const trait." + DECIDES + " Agreement of the remaining BigInt arithmetic with the libfuncs on values (conversions, shifts, "
       "wrapping) is not decided. One genuine defect found by these rules (`MIN % -1` accepted at compile time) was repaired in /repo (fix: commit 303bcdf).",
       "trusted: rustc MIR, fact dumper; assumes validate_literal and canonical_felt252 implement the type ranges / the field correctly",
       "DESIGN.md section 4, C07")
